@@ -4,7 +4,7 @@ NOT_BUILT = "check not built yet in this round (design in DESIGN.md section 3); 
 
 
 def fill(claim, na):
-    for p in ["C01", "C02", "C03", "C04", "C06", "C07", "C08", "C09", "C10", "C11", "C12", "C13",
+    for p in ["C01", "C02", "C03", "C04", "C06", "C08", "C09", "C10", "C11", "C12", "C13",
               "C15", "C16", "C18", "C19"]:
         na(p, NOT_BUILT)
     na("C05", "equality of decoded flux with the sector dump is a statement about decoding arbitrary bit-streams "
@@ -20,3 +20,13 @@ def fill(claim, na):
           "Does not decide that Opus volume extents are computed correctly (runtime arithmetic).",
           "Trusts clang's CFG/branch semantics and that the compared member is the object's sector count.",
           "DESIGN.md 3/C17")
+    claim("C07",
+          "AST/CFG rules over all dfs units: thrown-type census, interprocedural may-throw sets vs. try handlers in main, "
+          "exit-status value sets, must-dataflow size checks on every FileAccess::read result, input-governed loop exits, "
+          "field-based taint from 32-bit file fields to allocation sizes, dominance of optional dereferences",
+          "Decides seven structural necessary conditions of clean failure for all inputs (each was violated by a hostile "
+          "file before the fix: commits). Does not decide general memory safety/termination of the parsers or assertion "
+          "reachability.",
+          "Trusts clang AST/CFG, the call-graph closure (virtual calls to all overriders, lambdas attributed to their "
+          "enclosing function) and the table of throwing library entry points.",
+          "DESIGN.md 3/C07")
